@@ -104,21 +104,43 @@ pub proof fn lemma_wd(n: int)
 pub open spec fn abs(a: int) -> int { if a >= 0 { a } else { -a } }
 pub open spec fn sign_of(a: int) -> int { if a >= 0 { 1 } else { -1 } }
 
-// ---- IEEE double operations, named.  Verus leaves `as f64` and `/` on doubles unspecified; the extractor rewrites
-// `X as f64 / Y as f64` into these two wrappers (rewrite `ieee-ops-named`), whose only assumed property is that the
-// hardware operation is a FUNCTION of its operands.  Contracts can then pin down WHICH integers reach the
-// conversion and the division (e.g. the sub-minute remainder, not the whole count).
+// ---- IEEE double operations, named.  Verus leaves every operation on `f64` unspecified; the extractor rewrites each
+// one into a wrapper below (rewrite `ieee-ops-named`), whose only assumed property is that the hardware operation is
+// a FUNCTION of its operands.  Contracts can then pin down the STRUCTURE of a double computation for all inputs:
+// which integers reach the conversion, what is multiplied / divided by what, how the result is classified and
+// converted back, which error variant each class maps to.  What the operations themselves compute (correct
+// rounding, saturating casts, NaN / infinity classes) is outside Verus and checked on the real code by the Kani
+// unit obligations (`*_mul_f64_unit`, `div_f64_zero_dividend`, `ts_add_days_range`, ...).
 pub uninterp spec fn spec_ieee_from_i64(x: int) -> f64;
+pub uninterp spec fn spec_ieee_mul(a: f64, b: f64) -> f64;
 pub uninterp spec fn spec_ieee_div(a: f64, b: f64) -> f64;
+pub uninterp spec fn spec_ieee_round(a: f64) -> f64;
+pub uninterp spec fn spec_ieee_neg(a: f64) -> f64;
+pub uninterp spec fn spec_ieee_is_infinite(a: f64) -> bool;
+pub uninterp spec fn spec_ieee_is_nan(a: f64) -> bool;
+pub uninterp spec fn spec_ieee_is_zero(a: f64) -> bool;        // a == 0.0 (either sign)
+pub uninterp spec fn spec_ieee_to_i64(a: f64) -> int;          // `a as i64`
+pub uninterp spec fn spec_ieee_to_i32(a: f64) -> int;          // `a as i32`
 /// the fractional second of a sub-minute microsecond count
 pub open spec fn spec_second_of(n: int) -> f64 { spec_ieee_div(spec_ieee_from_i64(n), spec_ieee_from_i64(1_000_000)) }
 
 #[verifier::external_body]
-pub fn ieee_from_i64(x: i64) -> (r: f64)
-    ensures r == spec_ieee_from_i64(x as int),
-{ x as f64 }
-
+pub fn ieee_from_i64(x: i64) -> (r: f64) ensures r == spec_ieee_from_i64(x as int), { x as f64 }
 #[verifier::external_body]
-pub fn ieee_div(a: f64, b: f64) -> (r: f64)
-    ensures r == spec_ieee_div(a, b),
-{ a / b }
+pub fn ieee_mul(a: f64, b: f64) -> (r: f64) ensures r == spec_ieee_mul(a, b), { a * b }
+#[verifier::external_body]
+pub fn ieee_div(a: f64, b: f64) -> (r: f64) ensures r == spec_ieee_div(a, b), { a / b }
+#[verifier::external_body]
+pub fn ieee_round(a: f64) -> (r: f64) ensures r == spec_ieee_round(a), { a.round() }
+#[verifier::external_body]
+pub fn ieee_neg(a: f64) -> (r: f64) ensures r == spec_ieee_neg(a), { -a }
+#[verifier::external_body]
+pub fn ieee_is_infinite(a: f64) -> (r: bool) ensures r == spec_ieee_is_infinite(a), { a.is_infinite() }
+#[verifier::external_body]
+pub fn ieee_is_nan(a: f64) -> (r: bool) ensures r == spec_ieee_is_nan(a), { a.is_nan() }
+#[verifier::external_body]
+pub fn ieee_is_zero(a: f64) -> (r: bool) ensures r == spec_ieee_is_zero(a), { a == 0.0 }
+#[verifier::external_body]
+pub fn ieee_to_i64(a: f64) -> (r: i64) ensures r as int == spec_ieee_to_i64(a), { a as i64 }
+#[verifier::external_body]
+pub fn ieee_to_i32(a: f64) -> (r: i32) ensures r as int == spec_ieee_to_i32(a), { a as i32 }
